@@ -9,18 +9,24 @@ RT = ["harness/sched/c16.c", "harness/sched/rt.c", "harness/cpp_session.cpp"]
 
 
 def census(lib):
-    """writable static storage (.data/.bss/.tdata/.tbss symbols) of every library object"""
-    out = subprocess.run(["nm", "-S", "--size-sort", lib["lib"]], stdout=subprocess.PIPE, stderr=subprocess.DEVNULL).stdout.decode()
+    """writable static storage of every library object: data symbols in .data* / .bss* / .tdata* / .tbss* (not .rodata, not .data.rel.ro)"""
+    out = subprocess.run(["objdump", "-t", lib["lib"]], stdout=subprocess.PIPE, stderr=subprocess.DEVNULL).stdout.decode()
     syms = []
     cur = ""
     for l in out.splitlines():
-        if l.endswith(":"):
-            cur = l[:-1]
+        m = re.match(r"^(\S+):\s+file format", l)
+        if m:
+            cur = m.group(1)
             continue
-        p = l.split()
-        if len(p) == 4 and p[2] in ("d", "D", "b", "B") and not p[3].startswith("__"):
-            syms.append("%s:%s(%d bytes)" % (cur.split("-")[-1], p[3], int(p[1], 16)))
-    return syms
+        m = re.match(r"^[0-9a-f]+\s+(.{7})\s+(\S+)\s+([0-9a-f]+)\s+(\S+)$", l)
+        if not m:
+            continue
+        flags, sec, size, name = m.group(1), m.group(2), int(m.group(3), 16), m.group(4)
+        if "O" not in flags or size == 0 or name.startswith("__"):
+            continue
+        if re.match(r"^\.(data|bss|tdata|tbss)(\.|$)", sec) and not sec.startswith(".data.rel.ro"):
+            syms.append("%s:%s(%d bytes)" % (cur.split("-")[-1], name, size))
+    return sorted(syms)
 
 
 def explorer(lib):
@@ -51,6 +57,12 @@ def run(ctx):
     for be in ("asm", "c64", "c32", "dxor", "generic"):
         cens[be] = census(build.build_lib(be))
     cens["generic+checker"] = census(build.build_lib("generic", checker=True))
+    for be, syms in cens.items():
+        ctx.stat("census_objects_examined", 1)
+        if be.endswith("+checker"):
+            continue    # the balance checker's one-bit global is that configuration's documented purpose; it serves as the explorer's positive control below
+        for sy in syms:
+            ctx.fail("static-storage:%s:%s" % (be, sy.split("(")[0]), "the library object file keeps writable static storage %s: hidden mutable global state shared by all threads" % sy)
     # (2) explorer on the C back ends
     budget = max(30.0, min(ctx.remaining() * 0.55, 1500.0 if t else 110.0))
     for be in (("c64", "c32", "generic") if t else ("c64", "c32")):
@@ -68,6 +80,11 @@ def run(ctx):
         if t or be == "c64":
             for part in range(4):
                 jobs.append((exe, ["triples", 1, part, 4, budget], be + ":triples-bound1"))
+        # cold start: every schedule in a fresh process whose parent never ran library code (first-call races on lazily initialised statics)
+        if t or be == "c64":
+            cparts = nproc if t else 8
+            for part in range(cparts):
+                jobs.append((exe, ["coldpairs", 1, 0, part, cparts, budget], be + ":cold-pairs-bound1"))
     res = common.parallel(lambda j: common.run_harness(ctx, j[0], j[1], label=j[2], timeout=budget + 120), jobs)
     # symbolise static addresses in race reports (non-PIE executables)
     symtabs = {}
@@ -126,6 +143,7 @@ def run(ctx):
         "scheduling points are the library's accesses to writable static storage and to objects registered as shared (pre-computed ISAP keys, masked keys, shared inputs); accesses to thread-private objects and stacks commute with everything; an access to another thread's private block is itself reported",
         "the library has no synchronisation operations, so any two accesses of different threads to the same byte with at least one write are a data race regardless of their order; sequentially consistent interleavings only",
         "every schedule is re-executed from scratch on real pthreads (stateless exploration); a replay that diverges from its prefix or a schedule that is not reproducible aborts the check as a harness error",
+        "in the warm passes all schedules of a process share its static storage, so a lazily initialised static is in its steady state after the first schedule; the cold-start pass and the census cover the first call",
         "assembly code is not instrumented: the explorer runs the C back ends; the assembly back end is covered by the free-running ThreadSanitizer pass and by the census",
     ]
     cov = dict(states=ctx.stats.get("programs", 0), transitions=ctx.stats.get("schedules", 0), traces_validated_against_impl=ctx.stats.get("schedules", 0),
@@ -133,6 +151,8 @@ def run(ctx):
                free_running_programs=ctx.stats.get("free_running_programs", 0),
                writable_static_storage=cens,
                rule="programs = every unordered pair of a 38-operation alphabet (one operation per thread) with per-thread inputs to preemption bound 2 and with all inputs shared to bound 1 (2 in thorough), plus triples to bound 1; "
-                    "every schedule within the bound is executed on the real library under the own runtime; states = programs, transitions = schedules",
+                    "every schedule within the bound is executed on the real library under the own runtime; states = programs, transitions = schedules; "
+                    "cold-start pass: the same pairs to bound 1 with every schedule run in a freshly forked process that has executed no library code before (first-call behaviour); "
+                    "writable static storage of every object file of the 5 back ends must be empty",
                exhaustive=True)
     return LEVEL, cov
